@@ -53,8 +53,8 @@ BASES = {
     "loop": dict(edges=[("x", "y", 2), ("y", "y", 1), ("y", "z", 2)], nodew={"x": 2, "y": 3, "z": 2}, con=[("x", "y"), ("y", "y")], ign=("y", "y"), mid=("y", "y"), k=3),
 }
 CYCLIC_BASES = ("cycle", "loop")
-KINDS_QUICK = ("none", "opts", "sopts", "cons", "ign", "all")
-KINDS_ALL = ("none", "opts", "opts_empty", "opts2", "opts3", "sopts", "cons", "ign", "scal", "se", "all")
+KINDS_QUICK = ("none", "opts", "sopts", "cons", "ign", "all", "threads_other")
+KINDS_ALL = ("none", "opts", "opts_empty", "opts2", "opts3", "sopts", "cons", "ign", "scal", "se", "all", "threads_other")
 OPTS_CONTENT = {"opts": {"optimize_with_safe_zero_edges": True}, "opts_empty": {}, "opts2": {"optimize_with_safe_paths": False},
                 "opts3": {"optimize_with_safe_sequences": False}, "all": {"optimize_with_safe_zero_edges": True}}
 
@@ -111,8 +111,8 @@ def _mutable_defaults():
                 f = getattr(f, "__func__", f)
                 if isinstance(f, property):
                     f = f.fget
-                if not inspect.isfunction(f) or id(f) in seen:
-                    continue
+                if not inspect.isfunction(f) or id(f) in seen or not str(getattr(f, "__module__", "")).startswith("flowpaths"):
+                    continue            # only the library's own functions (never touch defaults of imported third-party functions)
                 seen.add(id(f))
                 for d in list(f.__defaults__ or ()) + list((f.__kwdefaults__ or {}).values()):
                     if isinstance(d, (dict, list, set)):
@@ -124,20 +124,33 @@ _DEFAULTS = None
 
 
 def reset_defaults():
-    """all mutable defaults of the library are empty containers in the source: restore that state"""
+    """restore every mutable default argument of the library to the value it had when this module first looked (the
+    source has only empty containers and one constant table), and destroy the process-global HiGHS scheduler so that a
+    `threads` option used by an earlier case cannot leak into this one"""
     global _DEFAULTS
     if _DEFAULTS is None:
-        _DEFAULTS = _mutable_defaults()
+        _DEFAULTS = [(name, d, copy.deepcopy(d)) for name, d in _mutable_defaults()]
     dirty = []
-    for name, d in _DEFAULTS:
-        if len(d):
+    for name, d, pristine in _DEFAULTS:
+        if d != pristine:
             dirty.append(name)
             d.clear()
+            if isinstance(d, dict):
+                d.update(copy.deepcopy(pristine))
+            elif isinstance(d, list):
+                d.extend(copy.deepcopy(pristine))
+            else:
+                d |= copy.deepcopy(pristine)
+    try:
+        import highspy
+        highspy.Highs.resetGlobalScheduler(True)
+    except Exception:
+        pass
     return dirty
 
 
 def dirty_defaults():
-    return [(name, repr(d)[:120]) for name, d in (_DEFAULTS or []) if len(d)]
+    return [(name, repr(d)[:120]) for name, d, pristine in (_DEFAULTS or []) if d != pristine]
 
 
 def _quiet():
@@ -264,7 +277,7 @@ def shares_something(A, B, kind):
         t.add("sopts")
         return t
     key = {"opts_empty": "opts", "opts2": "opts", "opts3": "opts"}.get(kind, kind)
-    if key in ("none", "all"):
+    if key in ("none", "all", "threads_other"):
         return True
     return key in takes(A) and key in takes(B)
 
@@ -322,7 +335,11 @@ def history(A, flavour, B, kind, base, names, origin):
     if origin == "node":
         sh = node_shared(sh)
     frames = []
-    kwA = kwargs_for(A, flavour, sh, base, origin)
+    if kind == "threads_other":
+        shA = dict(sh, sopts={"threads": 1})         # A's own solver options: an object B never sees
+        kwA = kwargs_for(A, flavour, shA, base, origin)
+    else:
+        kwA = kwargs_for(A, flavour, sh, base, origin)
     snapA = {k: canon(v) for k, v in kwA.items()}
     run_model(A, kwA)
     for k, v in kwA.items():
@@ -376,10 +393,14 @@ def cases(tier):
                         continue
                     if base in CYCLIC_BASES and quick and kind not in ("none", "opts", "all"):
                         continue
+                    if kind == "threads_other" and (flavour != "plain" or base != "diamond"):
+                        continue
                     for names, origin in (((1, "edge"),) if quick else ((1, "edge"), (2, "edge"), (1, "node"))):
                         if origin == "node" and kind not in ("none", "opts", "ign", "cons", "all"):
                             continue
                         if names == 2 and kind not in ("none", "opts", "all"):
+                            continue
+                        if kind == "threads_other" and (names, origin) != (1, "edge"):
                             continue
                         yield dict(clause="history", A=A, flavour=flavour, B=B, kind=kind, base=base, names=names, origin=origin)
 
@@ -455,7 +476,8 @@ def check_history(case):
     ident = "B=%s after A=%s(%s) sharing %s; base=%s names=%s origin=%s" % (B, A, flavour, kind, base, case["names"], origin)
     sharing = {"none": "nothing but the default arguments", "opts": "its optimization_options dict", "opts_empty": "its (empty) optimization_options dict",
                "opts2": "its optimization_options dict", "opts3": "its optimization_options dict", "sopts": "its solver_options dict", "cons": "its constraint list",
-               "ign": "its ignore list", "scal": "its error_scaling dict", "se": "its additional starts/ends lists", "all": "all its argument objects"}[kind]
+               "ign": "its ignore list", "scal": "its error_scaling dict", "se": "its additional starts/ends lists", "all": "all its argument objects",
+               "threads_other": "no argument object with it but had its own solver_options (threads)"}[kind]
     if got != ref:
         # control: is the difference attributable to the history, or is the library not deterministic on this instance?
         refs = [ref] + [alone(B, kind, base, names, origin, fresh=True) for _ in range(2)]
